@@ -26,10 +26,10 @@ import (
 type opid = spectypes.OperatorID
 
 const (
-	envNormal    = iota
-	envBitflip          // one bit of the RSA signature flipped
-	envNoEnvelope       // plain payload although envelopes are active
-	envForce            // envelope although envelopes are not active yet
+	envNormal     = iota
+	envBitflip    // one bit of the RSA signature flipped
+	envNoEnvelope // plain payload although envelopes are active
+	envForce      // envelope although envelopes are not active yet
 )
 
 // mspec is the structured description a message is built from.
